@@ -323,7 +323,7 @@ var gOverride = []string{
 	"p&u=t", "a+b %41", "PATCH;", "_method",
 }
 
-func genMethod(r *Rand) string {
+func gatesGenMethod(r *Rand) string {
 	switch x := r.Intn(20); {
 	case x < 10:
 		return "POST"
@@ -492,12 +492,12 @@ func (gatesEngine) Gen(r *Rand, tier string) Case {
 	case kind < 7:
 		tag = "override"
 		for i := 0; i < n; i++ {
-			ops = append(ops, fmt.Sprintf("ovr %s %s %s", r.Pick([]string{"d", "r"}), hx(genMethod(r)), genCarriers(r)))
+			ops = append(ops, fmt.Sprintf("ovr %s %s %s", r.Pick([]string{"d", "r"}), hx(gatesGenMethod(r)), genCarriers(r)))
 		}
 	case kind < 8:
 		tag = "wrap"
 		for i := 0; i < n/2+1; i++ {
-			ops = append(ops, fmt.Sprintf("wrap %s %d %s %s", genWrapSpecs(r, tier), r.Range(1, 3), hx(genMethod(r)), genCarriers(r)))
+			ops = append(ops, fmt.Sprintf("wrap %s %d %s %s", genWrapSpecs(r, tier), r.Range(1, 3), hx(gatesGenMethod(r)), genCarriers(r)))
 		}
 	default:
 		tag = "chain"
